@@ -3,6 +3,8 @@
 package reader
 
 import (
+	"context"
+
 	clientv3 "go.etcd.io/etcd/client/v3"
 
 	"github.com/milvus-io/milvus/pkg/mq/msgdispatcher"
@@ -79,4 +81,25 @@ func verifDispatcherClient(mqConfig config.MQConfig, ttMsgStream bool) msgdispat
 		return f(mqConfig, ttMsgStream)
 	}
 	return nil
+}
+
+// VerifPreferDone, when set by a simulation harness, decides what a loop of the form
+// `for { select { case <-ctx.Done(): ...; case x := <-ch: ... } }` does when it comes back to
+// the select with the context already cancelled AND possibly data pending: Go would pick one of the ready
+// cases at random, which no replay can reproduce. true = take the Done case, false = leave the select alone.
+var VerifPreferDone func(site string) bool
+
+// verifNilIfDone returns a nil channel (so that only the Done case can fire) when the context is already
+// cancelled and the harness prefers the Done case; otherwise ch itself.
+func verifNilIfDone[C any](ctx context.Context, ch C, site string) C {
+	if f := VerifPreferDone; f != nil && ctx.Err() != nil && f(site) {
+		var none C
+		return none
+	}
+	return ch
+}
+
+// VerifNilIfDone is the same helper for other packages of the service.
+func VerifNilIfDone[C any](ctx context.Context, ch C, site string) C {
+	return verifNilIfDone(ctx, ch, site)
 }
